@@ -232,7 +232,25 @@ class FsRun:
             self.sched = None
         snap = self.sess.project()
         self.sess.prev = snap
-        self.events.append({"ev": "end", "snap": self._snap(snap)})
+        # temp files left behind are excused when the removal itself was made to fail, or a
+        # process never finished
+        tmpx = False
+        for e in reversed(self.events):
+            if e["ev"] == "begin":
+                break
+            if e["ev"] == "hang":
+                tmpx = True
+            # the async writers hand the temp file to a background task that may still hold it when
+            # the caller has its answer; a one-shot process then exits under it ("once its
+            # background work has finished" is the property's proviso): sync calls only
+            if e["ev"] == "spawn" and e.get("lane") in ("Aa", "Ta"):
+                tmpx = True
+            if e["ev"] == "sys" and (e.get("faulted") or e.get("action") in ("short", "torn")) \
+                    and (str(e.get("name", "")).startswith(("unlink", "rmdir")) or e.get("area") == "tmp"):
+                tmpx = True
+            if e["ev"] == "result" and isinstance(e.get("res"), dict) and e["res"].get("e") in ("DIED", "HANG", "PANIC"):
+                tmpx = True
+        self.events.append({"ev": "end", "snap": self._snap(snap), "tmpx": tmpx})
         # the API-level ghost adopts the state the traced phase left behind (its legitimacy is
         # decided by the FS-level trace specification)
         ad = {"ev": "adopt"}
